@@ -5,6 +5,7 @@ package harness
 // C02 — expressions follow Yarn's operator table, precedence and short-circuiting.
 
 import (
+	"errors"
 	"fmt"
 	"math"
 	"math/big"
@@ -34,11 +35,19 @@ func (c *c02Case) fix() {
 type probeEnv struct {
 	vars map[string]mval
 	log  []string
+	// numberOverridden: the host has registered its own number(): it adds 1000
+	numberOverridden bool
 }
 
 func (p *probeEnv) lookup(name string) (mval, bool) { v, ok := p.vars[name]; return v, ok }
 
 func (p *probeEnv) callFn(name string, args []mval) (mval, bool, error) {
+	if name == "number" && p.numberOverridden {
+		if len(args) != 1 || args[0].T != 'n' {
+			return mval{}, false, evalErrf("unmodelled: the host's number of another type")
+		}
+		return numVal(args[0].N + 1000), true, nil
+	}
 	return probeCallSet(name, args, &p.log, func(name string, v mval) { p.vars[name] = v })
 }
 
@@ -184,6 +193,26 @@ func loadStore(st variable.Storer, vars map[string]mval) {
 	}
 }
 
+// keepingStorer keeps one *Value per variable and hands that pointer out.
+type keepingStorer struct{ vals map[string]*variable.Value }
+
+func (s *keepingStorer) GetValue(name string) (*variable.Value, bool) {
+	v, ok := s.vals[name]
+	return v, ok
+}
+func (s *keepingStorer) GetValues() map[string]variable.Value {
+	out := map[string]variable.Value{}
+	for k, v := range s.vals {
+		out[k] = *v
+	}
+	return out
+}
+func (s *keepingStorer) Contains(name string) bool             { _, ok := s.vals[name]; return ok }
+func (s *keepingStorer) SetNumberValue(name string, v float64) { s.vals[name] = variable.NewNumber(v) }
+func (s *keepingStorer) SetBooleanValue(name string, v bool)   { s.vals[name] = variable.NewBoolean(v) }
+func (s *keepingStorer) SetStringValue(name string, v string)  { s.vals[name] = variable.NewString(v) }
+func (s *keepingStorer) Clear()                                { s.vals = map[string]*variable.Value{} }
+
 func runC02(c c02Case) Verdict { return decideC02(c, false) }
 
 // decideC02: with panicIsFailure the same comparison decides C06 for expressions (an ill-typed expression must be an
@@ -200,7 +229,11 @@ func decideC02(c c02Case, panicIsFailure bool) Verdict {
 	}
 	env := &probeEnv{vars: modelVars}
 
-	storer := variable.NewInMemoryStorer()
+	var storer variable.Storer = variable.NewInMemoryStorer()
+	if len(expr)%3 == 1 {
+		// a host storer that hands out the very values it keeps (the same pointer for the same variable every time)
+		storer = &keepingStorer{vals: map[string]*variable.Value{}}
+	}
 	loadStore(storer, c.Vars)
 	dr, err := ysgo.NewDialogueRunner(storer, "abc", strings.NewReader(src))
 	if err != nil {
@@ -263,6 +296,16 @@ func decideC02(c c02Case, panicIsFailure bool) Verdict {
 		if isErr {
 			break // where the runner resumes after an error is not C02's business
 		}
+		if round == 1 && len(printExpr(c.E, nil))%2 == 0 {
+			// between the two evaluations the host registers its own number(): from now on that is what number(...) calls
+			dr.AddFunction("number", func(args []*variable.Value) (*variable.Value, error) {
+				if len(args) != 1 || args[0].Number == nil {
+					return nil, errors.New("the host's number() takes one number")
+				}
+				return variable.NewNumber(*args[0].Number + 1000), nil
+			})
+			env.numberOverridden = true
+		}
 	}
 	return classifyC02(c.E, isErr)
 }
@@ -322,7 +365,9 @@ func containsCall(e *Expr) bool {
 var c02VarPool = []string{"n1", "n2", "n3", "b1", "b2", "s1", "s2"}
 
 func genNumberValue(t *rapid.T) float64 {
-	switch rapid.IntRange(0, 9).Draw(t, "numkind") {
+	switch rapid.IntRange(0, 10).Draw(t, "numkind") {
+	case 10:
+		return math.NaN()
 	case 0:
 		return rapid.SampledFrom([]float64{0, math.Copysign(0, -1), 1, -1, 2, 0.5, -0.5, 1e308, -1e308, 5e-324, math.Inf(1), math.Inf(-1), math.NaN(), math.MaxInt64, 1 << 53}).Draw(t, "special")
 	case 1, 2, 3:
@@ -406,6 +451,11 @@ func (g *exprGen) gen(want byte, depth int) *Expr {
 		case 1:
 			return par(g.gen('n', depth-1))
 		case 2:
+			if rapid.Bool().Draw(t, "probe") {
+				// a call among the arguments of a call
+				g.probeID++
+				return call("pn", str(fmt.Sprint("p", g.probeID)), g.gen('n', depth-1))
+			}
 			return call("number", g.gen('n', depth-1))
 		default:
 			op := rapid.SampledFrom([]string{"*", "/", "%", "+", "-"}).Draw(t, "op")
@@ -457,7 +507,14 @@ func genNearPair(t *rapid.T) (*Expr, *Expr) {
 		return num(strconv.FormatFloat(f, 'f', -1, 64))
 	}
 	decimals := []string{"0.1", "0.2", "0.3", "0.7", "0.9", "1.1", "4.35", "0.15", "100", "3"}
-	switch rapid.IntRange(0, 3).Draw(t, "near") {
+	switch rapid.IntRange(0, 4).Draw(t, "near") {
+	case 4:
+		// the same variable, or the same probe result, on both sides (identity of the operands is not equality: NaN)
+		v := rapid.SampledFrom([]string{"n1", "n2", "n3"}).Draw(t, "samevar")
+		if rapid.Bool().Draw(t, "viaprobe") {
+			return call("pn", str("same1"), varRef(v)), call("pn", str("same2"), varRef(v))
+		}
+		return varRef(v), varRef(v)
 	case 0:
 		// a + b against the sum computed in decimal
 		a, b := rapid.SampledFrom(decimals).Draw(t, "a"), rapid.SampledFrom(decimals).Draw(t, "b")
